@@ -3,8 +3,8 @@ package ufstree
 import (
 	"encoding/json"
 	"fmt"
-	"log"
 	"io"
+	"log"
 	"os"
 	"strconv"
 	"syscall"
@@ -39,20 +39,35 @@ func scratch() string {
 	return d
 }
 
+type cand struct {
+	Key    string `json:"key"`
+	What   string `json:"what"`
+	Replay any    `json:"replay"`
+	Cases  []int  `json:"cases"`
+}
+
+// agg collects the discrepancies of the property under check.  The replay engine reports them as
+// candidates (with the ids of the cases they occurred in): the check turns a candidate into a
+// violation only if TLC accepted the case (model = twin).  The random engine has no model: its
+// discrepancies are violations directly.
 type agg struct {
 	rep     *Report
 	seen    map[string]int
+	cands   map[string]*cand
+	order   []string
 	other   map[string]int
 	prop    string
 	drift   int
 	stopped int
+	direct  bool
 }
 
-func newAgg(engine, prop string) *agg {
-	return &agg{rep: &Report{Engine: engine, Stats: map[string]any{}}, seen: map[string]int{}, other: map[string]int{}, prop: prop}
+func newAgg(engine, prop string, direct bool) *agg {
+	return &agg{rep: &Report{Engine: engine, Stats: map[string]any{}}, seen: map[string]int{}, other: map[string]int{},
+		cands: map[string]*cand{}, prop: prop, direct: direct}
 }
 
-func (a *agg) add(c *Case, replay any) {
+func (a *agg) add(c *Case, id int, replay any) {
 	want := map[string]string{"C16": "c16", "C17": "c17", "C18": "c18"}[a.prop]
 	for _, d := range c.Discs {
 		if d.Diverged {
@@ -61,8 +76,14 @@ func (a *agg) add(c *Case, replay any) {
 		switch {
 		case d.Class == want:
 			a.seen[d.Key]++
-			if a.seen[d.Key] == 1 {
-				a.rep.Violations = append(a.rep.Violations, Violation{Key: d.Key, What: d.What, Replay: replay})
+			k := a.cands[d.Key]
+			if k == nil {
+				k = &cand{Key: d.Key, What: d.What, Replay: replay}
+				a.cands[d.Key] = k
+				a.order = append(a.order, d.Key)
+			}
+			if len(k.Cases) < 50 && (len(k.Cases) == 0 || k.Cases[len(k.Cases)-1] != id) {
+				k.Cases = append(k.Cases, id)
 			}
 		case d.Class == "drift":
 			a.drift++
@@ -73,6 +94,16 @@ func (a *agg) add(c *Case, replay any) {
 }
 
 func (a *agg) finish() {
+	cs := []*cand{}
+	for _, k := range a.order {
+		cs = append(cs, a.cands[k])
+		if a.direct {
+			a.rep.Violations = append(a.rep.Violations, Violation{Key: k, What: a.cands[k].What, Replay: a.cands[k].Replay})
+		}
+	}
+	if !a.direct {
+		a.rep.Stats["candidates"] = cs
+	}
 	a.rep.Stats["violation_occurrences"] = a.seen
 	a.rep.Stats["discrepancies_of_other_properties"] = a.other
 	a.rep.Stats["drift_on_special_names"] = a.drift
@@ -100,7 +131,7 @@ func TestReplay(t *testing.T) {
 	if tracePath != "" {
 		_ = os.Remove(tracePath)
 	}
-	a := newAgg("ufstree.replay", cfg.Prop)
+	a := newAgg("ufstree.replay", cfg.Prop, false)
 	distinct := map[string]bool{}
 	steps := 0
 	for i, b := range behs {
@@ -128,7 +159,7 @@ func TestReplay(t *testing.T) {
 				t.Fatalf("trace: %v", err)
 			}
 		}
-		a.add(c, map[string]any{"engine": "ufstree.replay", "cfg": cfg, "alphabet": alpha, "case": b.ID, "steps": b.Steps})
+		a.add(c, b.ID, map[string]any{"engine": "ufstree.replay", "cfg": cfg, "alphabet": alpha, "case": b.ID, "steps": b.Steps})
 		for _, s := range b.Steps {
 			distinct[fmt.Sprint(s)] = true
 		}
@@ -146,5 +177,5 @@ func TestReplay(t *testing.T) {
 		t.Fatal(err)
 	}
 	fmt.Fprintf(os.Stderr, "replay: %d cases, %d steps, %d violation keys, other=%v drift=%d inconclusive=%d\n",
-		a.rep.Cases, steps, len(a.rep.Violations), a.other, a.drift, len(a.rep.Inconclusive))
+		a.rep.Cases, steps, len(a.order), a.other, a.drift, len(a.rep.Inconclusive))
 }
